@@ -1,6 +1,8 @@
 package types
 
 import (
+	"math"
+
 	errorsmod "cosmossdk.io/errors"
 	sdk "github.com/cosmos/cosmos-sdk/types"
 	paramtypes "github.com/cosmos/cosmos-sdk/x/params/types"
@@ -66,6 +68,10 @@ func (p Params) Validate() error {
 		return ErrVotePeriodIsZero
 	}
 
+	if err := validateVotePeriod(p.VotePeriod); err != nil {
+		return err
+	}
+
 	if p.VoteThreshold.LT(sdk.NewDecWithPrec(50, 2)) {
 		return errorsmod.Wrapf(ErrInvalidParams, "vote threshold must be bigger than 50%%: %s", p.VoteThreshold)
 	}
@@ -117,6 +123,11 @@ func validateVotePeriod(i interface{}) error {
 
 	if v == 0 {
 		return errorsmod.Wrapf(ErrInvalidParams, "vote period must be positive: %d", v)
+	}
+
+	// a round is two vote periods and its heights are computed in int64
+	if v > math.MaxInt64/2 {
+		return errorsmod.Wrapf(ErrInvalidParams, "vote period is too large: %d", v)
 	}
 
 	return nil
